@@ -37,6 +37,9 @@ pub struct StarkConfig {
     pub n_verifier_friendly_commitment_layers: Felt,
 }
 
+const MAX_LOG_BLOWUP_FACTOR: Felt = Felt::from_hex_unchecked("0x10");
+const MAX_N_QUERIES: Felt = Felt::from_hex_unchecked("0x30");
+
 impl StarkConfig {
     pub fn security_bits(&self) -> Felt {
         self.n_queries * self.log_n_cosets + Felt::from(self.proof_of_work.n_bits)
@@ -49,6 +52,17 @@ impl StarkConfig {
         num_columns_second: Felt,
     ) -> Result<(), Error> {
         self.proof_of_work.validate()?;
+
+        // Bound the blow-up exponent and the number of queries (as integers, not modulo the
+        // field) before they are used in any arithmetic or as loop bounds.
+        ensure!(
+            self.log_n_cosets >= Felt::ONE && self.log_n_cosets <= MAX_LOG_BLOWUP_FACTOR,
+            Error::OutOfBounds { min: 1, max: 16 }
+        );
+        ensure!(
+            self.n_queries >= Felt::ONE && self.n_queries <= MAX_N_QUERIES,
+            Error::OutOfBounds { min: 1, max: 48 }
+        );
 
         ensure!(security_bits <= self.security_bits(), Error::InsufficientSecurity);
 
@@ -91,6 +105,8 @@ pub enum Error {
     DynamicParamsMissing,
     #[error("insufficient number ofsecurity bits")]
     InsufficientSecurity,
+    #[error("value out of bounds {min} - {max}")]
+    OutOfBounds { min: u64, max: u64 },
 }
 
 #[cfg(not(feature = "std"))]
@@ -111,4 +127,6 @@ pub enum Error {
     DynamicParamsMissing,
     #[error("insufficient number ofsecurity bits")]
     InsufficientSecurity,
+    #[error("value out of bounds {min} - {max}")]
+    OutOfBounds { min: u64, max: u64 },
 }
